@@ -202,12 +202,20 @@ func run(c *harness.Ctx, i int) {
 		if concurrent && nh > 1 {
 			w.events["concurrent"] = true
 		}
+		var sharedHandle *desync.SparseFileHandle
+		if sf != nil && concurrent && nh > 1 && rng.Intn(3) == 0 {
+			if sh, err := sf.Open(); err == nil {
+				sharedHandle = sh
+				defer sh.Close()
+				w.events["shared-handle"] = true
+			}
+		}
 		var wg sync.WaitGroup
 		for h := 0; h < nh; h++ {
 			seed := rng.Int63()
 			f := func() {
 				defer wg.Done()
-				w.handle(rand.New(rand.NewSource(seed)), sf, ff)
+				w.handle(rand.New(rand.NewSource(seed)), sf, ff, sharedHandle)
 			}
 			wg.Add(1)
 			if concurrent {
@@ -341,11 +349,13 @@ func (w *world) inject(id desync.ChunkID, n int64) error {
 }
 
 // handle issues a sequence of reads on one handle.
-func (w *world) handle(rng *rand.Rand, sf *desync.SparseFile, ff *dsu.FuseFile) {
+func (w *world) handle(rng *rand.Rand, sf *desync.SparseFile, ff *dsu.FuseFile, shared *desync.SparseFileHandle) {
 	L := int64(len(w.blob))
 	var h *desync.SparseFileHandle
 	var fh uint64
-	if sf != nil {
+	if shared != nil {
+		h = shared // several goroutines read through one handle (what kernel read-ahead does on a mounted file)
+	} else if sf != nil {
 		var err error
 		h, err = sf.Open()
 		if err != nil {
